@@ -151,6 +151,14 @@ func buildHelper(h string, p []int, in []<-chan float64) []<-chan float64 {
 		return one(helper.Operate3(in[0], in[1], in[2], func(a, b, c float64) float64 { return 100*a + 10*b + c }))
 	case "Seq":
 		return one(helper.Seq(float64(par(0)), float64(par(1)), float64(par(2))))
+	case "SyncPeriod":
+		return one(helper.SyncPeriod(par(0), par(1), in[0]))
+	case "Gcd":
+		return one(helper.SliceToChan([]float64{float64(helper.Gcd(p...))}))
+	case "Lcm":
+		return one(helper.SliceToChan([]float64{float64(helper.Lcm(p...))}))
+	case "CommonPeriod":
+		return one(helper.SliceToChan([]float64{float64(helper.CommonPeriod(p...))}))
 	}
 	return nil
 }
